@@ -405,8 +405,11 @@ def pyValidate : TraitType → Val → Res
   -- This.validate / validate_none, 950-960
   | .this an, v =>
     if Val.isInst (.user E.selfCls) v || (an && v.isNone) then .ok v else .traitError
-  -- BaseCallable.validate, 890-896 (Callable does not override it: allow_none is not consulted)
-  | .callable _, v => if v.isNone || v.callable then .ok v else .traitError
+  -- Callable.validate (58d344c): None only if allow_none, then BaseCallable.validate, 890-896.
+  -- (BaseCallable itself, which has no allow_none, is `noFast (callable true)`.)
+  | .callable an, v =>
+    if v.isNone && !an then .traitError
+    else if v.isNone || v.callable then .ok v else .traitError
   -- TraitCompound.validate, trait_handlers.py:696-710, for the compound _TraitMaker builds
   -- from Either(t1, …, tn[, None]): the constants end up in a TraitEnum appended last
   | .either alts wn, v =>
